@@ -6,6 +6,8 @@ use monero::blockdata::transaction::*;
 use monero::consensus::encode::{deserialize, deserialize_partial, serialize, Decodable, Encodable, VarInt};
 use monero::util::ringct::*;
 use monero::Hash;
+use monero::blockdata::block::BlockHeader;
+use monero::cryptonote::hash::Hash8;
 
 pub fn bpp_tx(n: usize) -> Transaction {
     let z = Key::from([0u8; 32]);
@@ -49,6 +51,116 @@ fn check<T: Decodable + Encodable + PartialEq + std::fmt::Debug>(o: &mut Out, r:
     o.op(format!("c01_dec {} {}", ty, hex(&ws)), true);
 }
 
+fn shape_of(version: u64, nin: usize, ring: usize, nout: usize, rct: RctType, nbp: usize) -> gen::Shape {
+    gen::Shape { vary_rings: false, version, nin, ring, nout, coinbase_first: false, all_coinbase: false, rct, nbp, extra_len: 2 }
+}
+/// Family "odd shapes": well-formed values that the type-directed generator never produces — empty rings, a coinbase input
+/// between key inputs, unusual version numbers in front of RingCT data, ≥ 128 inputs, proofs with ≥ 128 L/R keys, ≥ 256
+/// Bulletproofs (u32 count), boundary nonces — each through the five direct oracles and the model comparison (`check`).
+fn odd_shapes(o: &mut Out, r: &mut Rng) {
+    // empty ring: well-formed for version 1 (an empty signature row) and for RingCT type Null
+    for nin in [1usize, 2] { for nout in [0usize, 2] {
+        let t = gen::tx_of(r, &shape_of(1, nin, 0, nout, RctType::Null, 0)); check(o, r, &t, "tx", "empty-ring");
+        let mut t = gen::tx_of(r, &gen::Shape { vary_rings: true, ..shape_of(1, nin, 0, nout, RctType::Null, 0) }); if let Some(TxIn::ToKey { key_offsets, .. }) = t.prefix.inputs.first_mut() { key_offsets.clear(); } if let Some(s) = t.signatures.first_mut() { s.clear(); } check(o, r, &t, "tx", "empty-ring");
+        let t = gen::tx_of(r, &shape_of(2, nin, 0, nout, RctType::Null, 0)); check(o, r, &t, "tx", "empty-ring");
+    } }
+    // ... and NOT for the other types: the encoder writes it, the decoder refuses ("no ring members") — not a round-trip value
+    for rct in &gen::RCT_TYPES[1..] {
+        let t = gen::tx_of(r, &shape_of(2, 1, 0, if matches!(rct, RctType::Full | RctType::Simple) { 0 } else { 1 }, *rct, 0)); let w = serialize(&t);
+        let id = format!("c01_dec tx {}", hex(&w));
+        o.direct(deserialize::<Transaction>(&w).is_err(), "C02: a RingCT transaction whose first input has an empty ring is refused", id.clone(), "Ok".into(), "Err".into());
+        o.op(id, true); o.stat("tx.empty-ring-refused");
+    }
+    // a coinbase input between two key inputs (v1: no signature row for it; RingCT: counted as an input)
+    for rct in gen::RCT_TYPES { for version in [1u64, 2] {
+        if version == 1 && rct != RctType::Null { continue; }
+        let mut t = gen::tx_of(r, &gen::Shape { vary_rings: true, ..shape_of(version, 3, 2, if matches!(rct, RctType::Full | RctType::Simple) { 0 } else { 2 }, rct, 1) });
+        t.prefix.inputs[1] = TxIn::Gen { height: gen::vi(r) }; if version == 1 { t.signatures.remove(1); }
+        check(o, r, &t, "tx", "mixed-inputs");
+        let mut t2 = t.clone(); t2.prefix.inputs.swap(0, 1);   // coinbase first: mixin 0 for the RingCT part
+        if version == 1 || rct == RctType::Null { check(o, r, &t2, "tx", "mixed-inputs"); }
+    } }
+    // version numbers other than 1 and 2 in front of RingCT data (everything but 1 takes the RingCT path), multi-byte versions
+    for v in [0u64, 3, 127, 128, 255, 256, 257, (1 << 16) + 1, (1 << 32) + 1, 1 << 63, u64::MAX] { for rct in gen::RCT_TYPES {
+        let mut t = gen::tx_of(r, &shape_of(2, 1, 2, if matches!(rct, RctType::Full | RctType::Simple) { 0 } else { 1 }, rct, 1)); t.prefix.version = VarInt(v); check(o, r, &t, "tx", "version");
+    }
+        let mut t = gen::tx_of(r, &shape_of(2, 0, 1, 1, RctType::Null, 0)); t.prefix.version = VarInt(v); check(o, r, &t, "tx", "version"); }
+    // ≥ 128 inputs (two-byte input count), RingCT with that many CLSAGs / MLSAG columns
+    for nin in [127usize, 128, 129] {
+        let t = gen::tx_of(r, &gen::Shape { all_coinbase: true, ..shape_of(2, nin, 1, 1, RctType::Null, 0) }); check(o, r, &t, "tx", "many-inputs");
+        let t = gen::tx_of(r, &shape_of(2, nin, 1, 1, RctType::Clsag, 1)); check(o, r, &t, "tx", "many-inputs");
+        let t = gen::tx_of(r, &shape_of(1, nin, 1, 1, RctType::Null, 0)); check(o, r, &t, "tx", "many-inputs");
+        if nin == 128 { let t = gen::tx_of(r, &shape_of(2, nin, 1, 0, RctType::Full, 0)); check(o, r, &t, "tx", "many-inputs"); let t = gen::tx_of(r, &shape_of(2, nin, 1, 1, RctType::Bulletproof, 1)); check(o, r, &t, "tx", "many-inputs"); }
+    }
+    // proofs with L / R of 127..129 keys; ≥ 256 Bulletproofs under the u32 count, 128 under the varint count
+    for n in [127usize, 128, 129] { for (l, rr) in [(n, n), (0, n), (n, 1)] {
+        let x = Bulletproof { A: gen::key(r), S: gen::key(r), T1: gen::key(r), T2: gen::key(r), taux: gen::key(r), mu: gen::key(r), L: gen::keys(r, l), R: gen::keys(r, rr), a: gen::key(r), b: gen::key(r), t: gen::key(r) }; check(o, r, &x, "bp", "long-LR");
+        let x = BulletproofPlus { A: gen::key(r), A1: gen::key(r), B: gen::key(r), r1: gen::key(r), s1: gen::key(r), d1: gen::key(r), L: gen::keys(r, l), R: gen::keys(r, rr) }; check(o, r, &x, "bpp", "long-LR");
+    } }
+    for (rct, nbp) in [(RctType::Bulletproof, 255usize), (RctType::Bulletproof, 256), (RctType::Bulletproof, 257), (RctType::Bulletproof2, 128), (RctType::Clsag, 129), (RctType::BulletproofPlus, 128), (RctType::BulletproofPlus, 255)] {
+        let t = gen::tx_of(r, &shape_of(2, 1, 1, 1, rct, nbp)); check(o, r, &t, "tx", "many-proofs"); }
+    // header: boundary nonces and versions
+    for nonce in [0u32, 1, 0xff, 0x100, 0x00ff_ffff, 0x0100_0000, 0x7fff_ffff, 0x8000_0000, u32::MAX - 1, u32::MAX] { let mut h = gen::header(r); h.nonce = nonce; check(o, r, &h, "header", "nonce"); }
+    for v in [0u64, 127, 128, u64::MAX] { let h = BlockHeader { major_version: VarInt(v), minor_version: VarInt(v), timestamp: VarInt(v), prev_id: Hash([0xff; 32]), nonce: v as u32 }; check(o, r, &h, "header", "nonce"); }
+    // blocks whose miner transaction is of every RingCT type / version 1 (the generator's are Null-type 3 times out of 4)
+    for s in gen::sweep_shapes().iter().filter(|s| s.nin == 1 && s.nout == 1 && s.ring == 1 && !s.coinbase_first) { let mut b = gen::block(r, 2); b.miner_tx = gen::tx_of(r, s); check(o, r, &b, "block", "miner-kinds"); }
+}
+
+/// Family "primitives": fixed-width integers (unsigned and signed), bool, RctType, fixed records and boxed slices as values
+fn primitives(o: &mut Out, r: &mut Rng) {
+    macro_rules! ck { ($e:expr, $ty:expr, $fam:expr) => {{ let x = $e; check(o, r, &x, $ty, $fam); }} }
+    for v in [0u64, 1, 0x7f, 0x80, 0xff, 0x100, 0x7fff, 0x8000, 0xffff, 0x1_0000, 0x7fff_ffff, 0x8000_0000, 0xffff_ffff, 0x1_0000_0000, i64::MAX as u64, 1 << 63, u64::MAX - 1, u64::MAX, r.next(), r.next()] {
+        ck!((v as u8), "u8", "int"); ck!((v as u16), "u16", "int"); ck!((v as u32), "u32", "int"); ck!(v, "u64", "int");
+        ck!((v as i8), "i8", "int"); ck!((v as i16), "i16", "int"); ck!((v as i32), "i32", "int"); ck!((v as i64), "i64", "int");
+    }
+    ck!(true, "bool", "bool"); ck!(false, "bool", "bool");
+    for t in gen::RCT_TYPES { ck!(t, "rcttype", "rcttype"); }
+    for _ in 0..3 {
+        ck!(Hash8(r.next().to_le_bytes()), "hash8", "fixed"); ck!(Signature { c: gen::key(r), r: gen::key(r) }, "sig", "fixed");
+        ck!(gen::key64(r), "key64", "fixed"); ck!(gen::key(r), "key", "fixed"); ck!(KeyImage { image: Hash(r.arr32()) }, "key", "fixed"); ck!(CtKey { mask: gen::key(r) }, "key", "fixed");
+        ck!(RangeSig { asig: BoroSig { s0: gen::key64(r), s1: gen::key64(r), ee: gen::key(r) }, Ci: gen::key64(r) }, "rangesig", "fixed");
+        { // MultisigKlrki / MultisigOut have no `PartialEq`: fields compared by hand
+            let x = MultisigKlrki { K: gen::key(r), L: gen::key(r), R: gen::key(r), ki: gen::key(r) }; let w = serialize(&x); let id = format!("c01_dec klrki {}", hex(&w));
+            o.direct(matches!(deserialize_partial::<MultisigKlrki>(&w), Ok((y, 128)) if y.K == x.K && y.L == x.L && y.R == x.R && y.ki == x.ki) && w.len() == 128, "C02: deserialize(serialize(x)) == x", id.clone(), "?".into(), "same fields, 128 bytes".into()); o.op(id, true);
+            let x = MultisigOut { c: gen::keys(r, 3) }; let w = serialize(&x); let id = format!("c01_dec msout {}", hex(&w));
+            o.direct(matches!(deserialize_partial::<MultisigOut>(&w), Ok((y, 97)) if y.c == x.c), "C02: deserialize(serialize(x)) == x", id.clone(), "?".into(), "same keys, 97 bytes".into()); o.op(id, true); }
+    }
+    for n in [0usize, 1, 2, 127, 128, 129, 300] {
+        ck!(gen::keys(r, n).into_boxed_slice(), "box_key", "boxed"); ck!(r.bytes(n).into_boxed_slice(), "box_u8", "boxed");
+        ck!((0..n).map(|_| gen::vi(r)).collect::<Vec<_>>().into_boxed_slice(), "box_varint", "boxed"); ck!((0..n).map(|_| Hash(r.arr32())).collect::<Vec<Hash>>(), "vec_hash", "boxed");
+    }
+}
+
+/// Family "allocation cap": vectors of exactly cap/size elements round-trip, cap/size + 1 elements are refused — with the
+/// elements really present (the declared-length probes of C01/C04 carry 4 bytes of payload, so `>` and `>=` look the same there).
+/// Direct oracles only (no operation lines: the encodings are 32 MiB).
+fn cap_boundary(o: &mut Out) {
+    use monero::consensus::encode::MAX_VEC_MEM_ALLOC_SIZE as CAP;
+    fn one<T: Decodable + Encodable + PartialEq + Clone>(o: &mut Out, name: &str, elem: T, sz: usize) {
+        let n = CAP / sz;
+        for (k, accept) in [(n - 1, true), (n, true), (n + 1, false)] {
+            let v: Vec<T> = vec![elem.clone(); k]; let mut w = Vec::new(); let len = v.consensus_encode(&mut w).unwrap();
+            let id = format!("cap-boundary {} x {}", name, k);
+            o.direct(len == w.len(), "C02: reported length == bytes written", id.clone(), len.to_string(), w.len().to_string());
+            let res = deserialize_partial::<Vec<T>>(&w);
+            if accept { o.direct(matches!(&res, Ok((y, c)) if *c == w.len() && y == &v), "C02: a vector of exactly the allocation cap (and one element less) survives serialise-then-parse", id.clone(), format!("{:?}", res.as_ref().map(|(y, c)| (y.len(), *c)).map_err(|e| e.to_string())), format!("Ok(({}, {}))", k, w.len())); }
+            else { o.direct(res.is_err(), "C04/C02: a vector one element above the allocation cap is refused", id.clone(), "Ok".into(), "Err".into()); }
+            if std::mem::size_of::<T>() == 32 && k == n { let rb = deserialize_partial::<Box<[T]>>(&w); o.direct(matches!(&rb, Ok((y, c)) if *c == w.len() && y[..] == v[..]), "C02: a boxed slice of exactly the allocation cap survives serialise-then-parse", id.clone(), "Err or different".into(), "Ok".into()); }
+            o.stat(&format!("cap-boundary.{}", name));
+        }
+    }
+    one(o, "Vec<u8>", 0xa5u8, std::mem::size_of::<u8>());
+    one(o, "Vec<Key>", Key::from([7u8; 32]), std::mem::size_of::<Key>());
+    one(o, "Vec<Hash>", Hash([9u8; 32]), std::mem::size_of::<Hash>());
+    one(o, "Vec<VarInt>", VarInt(1), std::mem::size_of::<VarInt>());
+    // String and RawExtraField (separately written wrappers of the byte vector)
+    for (k, accept) in [(CAP, true), (CAP + 1, false)] {
+        let st = "x".repeat(k); let w = serialize(&st); let res = deserialize::<String>(&w); o.direct(if accept { res.as_ref().ok() == Some(&st) } else { res.is_err() }, "C02: String at the allocation cap", format!("cap-boundary String x {}", k), format!("{:?}", res.map(|s| s.len()).map_err(|e| e.to_string())), if accept { "Ok".into() } else { "Err".into() });
+        let e = RawExtraField(vec![1u8; k]); let w = serialize(&e); let res = deserialize::<RawExtraField>(&w); o.direct(if accept { res.as_ref().ok() == Some(&e) } else { res.is_err() }, "C02: RawExtraField at the allocation cap", format!("cap-boundary RawExtraField x {}", k), format!("{:?}", res.map(|s| s.0.len()).map_err(|e| e.to_string())), if accept { "Ok".into() } else { "Err".into() });
+        o.stat("cap-boundary.String+RawExtraField");
+    }
+}
+
 pub fn run(o: &mut Out, tier: &str, seed: u64) {
     let mut r = Rng::new(seed);
     let (n, big) = if tier == "thorough" { (3000, 3000usize) } else { (400, 400usize) };
@@ -82,6 +194,12 @@ pub fn run(o: &mut Out, tier: &str, seed: u64) {
     crate::c16::run_subfield_rt(o, &mut r, if tier == "thorough" { 4000 } else { 400 });
     // the BulletproofPlus proof count is written as one raw byte: counts above 255 cannot round-trip (known finding)
     for n in [0usize, 1, 2, 127, 128, 200, 255, 256, 257, 300] { o.op(format!("c02_bpp_count {}", n), true); }
+    // --- families added after the audit (own generator state: the stream of the families above is unchanged) ---
+    let mut r2 = Rng::new(seed ^ 0x0c02_a0d1);
+    odd_shapes(o, &mut r2);
+    primitives(o, &mut r2);
+    cap_boundary(o);
+    o.notes.push("added families: empty rings, coinbase between key inputs, versions 0/3/multi-byte with RingCT data, 127..129 inputs, L/R of 127..129 keys, 255..257 Bulletproofs, boundary nonces, every miner-tx kind in blocks; fixed-width signed/unsigned integers, bool, RctType, fixed records, boxed slices; vectors of exactly cap/size (accepted) and cap/size+1 (refused) real elements".into());
     o.notes.push("values from the type-directed generator (both versions, all 7 RingCT types, rings up to 40 / big, long vectors); non-trivial = every generated value (each is checked for round trip, length, strictness)".into());
 }
 fn bucket(n: usize) -> &'static str { match n { 0 => "0", 1 => "1", 2..=4 => "2-4", 5..=16 => "5-16", 17..=127 => "17-127", _ => "128+" } }
